@@ -124,7 +124,16 @@ TrFailed == /\ IsOp("failed") /\ mode = "failed"
             /\ Clause("failed_close_rejected", ~Ev[l].read_ok)
             /\ UNCHANGED vars
 
-TraceNext == \/ TrSetTitle \/ TrSetNatoms \/ TrSetFormat \/ TrSetBox
+(* a shipped coordinate file: every proper byte prefix (all of them for small files, a dense sample for large ones)
+   opened with the real reader; box_start = offset of the last line, computed by the harness from the raw bytes *)
+TrShipped == /\ IsOp("shipped")
+             /\ Clause("reader_accepts", Ev[l].read_ok)
+             /\ Clause("reader_count", Ev[l].natoms = Ev[l].declared /\ Ev[l].nrecs = Ev[l].declared)
+             /\ Clause("truncation_before_box_rejected", Ev[l].min_accepted = 0 - 1 \/ Ev[l].min_accepted > Ev[l].box_start)
+             /\ Clause("accepted_truncation_exact", Ev[l].accepted_exact)
+             /\ UNCHANGED vars
+
+TraceNext == \/ TrShipped \/ TrSetTitle \/ TrSetNatoms \/ TrSetFormat \/ TrSetBox
              \/ TrWrite \/ TrClose1 \/ TrClose2 \/ TrClose3 \/ TrFinal \/ TrFailed
 
 TraceSpec == TraceInit /\ [][TraceNext]_tvars
